@@ -55,10 +55,12 @@ check("C10",
 
 check("C16",
       passes=[dict(name="C16", src=["harness/C16.cpp"] + ENV, variant="fast", shards={"quick": 8, "thorough": 16})],
-      rule="elementary: all 4x3x4 (bound parameter, value, queried parameter) triples; general: ALL binding sequences of "
-           "length <= 4 (quick) / <= 5 (thorough) over 12 (parameter,value) pairs incl. rebinding, each on a fresh Lexicon, "
-           "all 4 parameters queried after every step and compared (by node identity) with a std::map last-write-wins "
-           "model. distinct_nontrivial = distinct final maps reached.",
+      rule="elementary: all 5x3x5 (bound parameter, value, queried parameter) triples over parameters of three lists (two lists at "
+           "the same nesting level, so members share level and position pairwise; three parameters share a name); general: ALL binding "
+           "sequences of length <= 4 (quick) / <= 5 (thorough) over 15 (parameter,value) pairs incl. rebinding, all parameters queried "
+           "after every step; and ALL histories of length <= 5 (quick) / <= 6 (thorough) over the alphabet {15 bindings + 5 queries} "
+           "(queries and rebindings interleaved in every order), each on a fresh Lexicon, every query compared (by node identity) with a "
+           "std::map last-write-wins model. distinct_nontrivial = distinct final maps reached.",
       text="Every operation sequence up to the bound is executed on the real substitution classes and compared with "
            "a reference map after every step.",
       note="Parameters come from two parameter lists (two share a name); one value is itself a parameter so that a "
@@ -176,7 +178,9 @@ check("C12",
            "interface unit and a module implementation unit; in every final state, for every region: enclosing()==model parent, the "
            "outward walk reaches the global region in exactly depth steps, global() only at the root (whose enclosing() throws "
            "logic_error), owner() per kind; parameters/enumerators/bases: home region, level, zero-based position; handler regions; "
-           "unnamed global namespace typed `namespace`; module links. distinct_nontrivial = histories nesting to depth >= 2.",
+           "unnamed global namespace typed `namespace` and named by the unit's own Lexicon; module links; plus member lists of 300 and 1100 "
+           "(thorough 70000) parameters (mapping, lambda, requires, function declarator), enumerators and up to 2000 bases: position == index, "
+           "level, home region. distinct_nontrivial = histories nesting to depth >= 2.",
       text="All construction histories up to the bound on the real region/unit classes against a parent-pointer tree "
            "and owner-map reference model.",
       note="Not asserted (the property is silent): an owner for plain sub-regions, requires / function-declarator / where / "
@@ -266,14 +270,14 @@ check("C19",
       passes=[dict(name="C19", src=["harness/C19.cpp"] + ENV, variant="fast", shards={"quick": 16, "thorough": 16}),
               dict(name="C19asan", src=["harness/C19.cpp"] + ENV, variant="asan", shards={"quick": 16, "thorough": 16},
                    args={"quick": ["--asan"], "thorough": ["--asan"]})],
-      rule="EVERY ordered history of <= 3 (quick) / <= 4 (thorough) operations over a 26-operation alphabet with at least one "
+      rule="EVERY ordered history of <= 3 (quick) / <= 4 (thorough) operations over a 27-operation alphabet with at least one "
            "operation per table / farm / list family (string pool incl. pool roll-over and oversize words, identifiers, other names, "
            "pointer/reference/array, qualified, product/sum, function/forall/ptr-to-member/tor, as-type/decltype/auto, transfers, "
            "literals/template-ids, symbols, expression farms, declaration + redeclaration, function + templates, class, enum with 70 "
            "enumerators, namespaces, blocks with handlers and every statement kind, lambda/closure/requires/where, directives, "
-           "declarator forms, sub-regions, module units, substitutions, printing) on a fresh Lexicon + units, destroyed in language "
+           "declarator forms, sub-regions, module units, substitutions, reading every unit's links, printing) on a fresh Lexicon + units, destroyed in language "
            "order; oracle = exact accounting by the replaced operator new/delete: live blocks AND bytes after destruction equal the "
-           "counts before construction and no delete of a non-live pointer (an imbalance must reproduce on replay); plus 26 chains of "
+           "counts before construction and no delete of a non-live pointer (an imbalance must reproduce on replay); plus 27 chains of "
            "50 Lexicons with overlapping lifetimes; the same histories to depth 2 (3) under ASan+UBSan for stale accesses. "
            "distinct_nontrivial = ordered histories of >= 2 operations.",
       text="Every operation history up to the bound is executed on the real Lexicon and destroyed; allocation balance is "
